@@ -28,9 +28,9 @@ Proof.
   destruct (depth =? 24), (rmax =? 255), (gmax =? 255), (bmax =? 255); reflexivity.
 Qed.
 
-Lemma tp_fmt_is_spec strict sbypp bypp bpp depth be tc rmax gmax bmax rs gs bs level quality :
+Lemma tp_fmt_is_spec strict swapfix sbypp bypp bpp depth be tc rmax gmax bmax rs gs bs level quality :
   strict = true \/ (bpp = 32 /\ tc <> 0) ->
-  tp_fmt (tight_params_of strict sbypp bypp bpp depth be tc rmax gmax bmax rs gs bs level quality) =
+  tp_fmt (tight_params_of strict swapfix sbypp bypp bpp depth be tc rmax gmax bmax rs gs bs level quality) =
   spec_tight_fmt bypp bpp depth be tc rmax gmax bmax rs gs bs.
 Proof.
   intros H. unfold tp_fmt, tight_params_of, spec_tight_fmt. cbn [tp_bypp tp_pack24 tp_be tp_rs tp_gs tp_bs]. f_equal.
@@ -42,22 +42,22 @@ Qed.
    that announces depth 24 and maxima 255; the specification's decoder expects 1-byte pixels *)
 Theorem tight_pack24_narrow_refuted :
   exists g payload,
-    tight_subrect (tight_params_of false 1 1 8 24 0 1 255 255 255 0 0 0 1 (-1)) 1 1 g = Some (TPayload payload) /\
+    tight_subrect (tight_params_of false false 1 1 8 24 0 1 255 255 255 0 0 0 1 (-1)) 1 1 g = Some (TPayload payload) /\
     dec_tight (spec_tight_fmt 1 8 24 0 1 255 255 255 0 0 0) 1 1 payload = None.
 Proof. exists [[5]], [128; 5; 5; 5]. split; vm_compute; reflexivity. Qed.
 
 (* F8: Pack24 assumes byte-aligned shifts when the client's byte order differs from the server's:
    32 bpp, depth 24, maxima 255, shifts 4/12/20, big endian *)
 Theorem tight_pack24_be_unaligned_refuted :
-  let p := mkTP 4 true true 4 12 20 1 false false in
+  let p := mkTP 4 true true 4 12 20 1 false false false in
   exists pix, pix = grid_pixel_of_value true 4 (1 * 2 ^ 4 + 2 * 2 ^ 12 + 3 * 2 ^ 20) /\
               take_tpixel (tp_fmt p) (tpixel_bytes p pix) <> Some (pix, []).
 Proof. eexists. split; [reflexivity|]. vm_compute. discriminate. Qed.
 
 (* ------------------------------------------------------------------ the whole Tight rectangle as the driver sends it *)
 (* the area of every piece sent as a fill rectangle is uniform on the translated screen: this is
-   what the solid-area search (on the server framebuffer) is meant to guarantee; it is NOT proved
-   here (oracle + exact diff only), hence a hypothesis *)
+   what the solid-area search (on the server framebuffer) is meant to guarantee; a hypothesis here;
+   proved in TightUniform.v / TightSessionFull.v when scr is the pixel-wise translation of sfb *)
 Definition solids_uniform (scr : list (list Z)) (pieces : list tpiece) : Prop :=
   forall x y w h d, In (Solid x y w h) pieces -> gget scr x y = Some d -> crop scr x y w h = mk_grid w h d.
 
@@ -115,13 +115,13 @@ Qed.
 (* C01_tight_session_partial: the function the driver runs.  Either no LastRect: SendRectSimple;
    or LastRect: the pieces of the solid-area search partition the request (proved), every piece is
    sent as rectangles that partition it and decode (fill rectangles: under solids_uniform). *)
-Theorem send_tight_session_ok strict sbypp bypp bpp depth be tc rmax gmax bmax rs gs bs level quality lastrect
+Theorem send_tight_session_ok strict swapfix sbypp bypp bpp depth be tc rmax gmax bmax rs gs bs level quality lastrect
         W H x y w h scr sfb rects :
-  let p := tight_params_of strict sbypp bypp bpp depth be tc rmax gmax bmax rs gs bs level quality in
+  let p := tight_params_of strict swapfix sbypp bypp bpp depth be tc rmax gmax bmax rs gs bs level quality in
   wf_grid W H scr -> Forall (Forall (tpix_rt p)) scr -> conf_ok (tp_conf p) ->
   (x + w <= W)%nat -> (y + h <= H)%nat -> (1 <= w)%nat -> (1 <= h)%nat ->
   (forall pieces, tight_split (S (w * h)) sfb x y w h = Some pieces -> solids_uniform scr pieces) ->
-  send_tight_session strict sbypp bypp bpp depth be tc rmax gmax bmax rs gs bs level quality lastrect x y w h scr sfb = Ok rects ->
+  send_tight_session strict swapfix sbypp bypp bpp depth be tc rmax gmax bmax rs gs bs level quality lastrect x y w h scr sfb = Ok rects ->
   exists pieces groups, part_abs x y w h (geoms pieces) /\ Forall2 (piece_sent p scr) pieces groups /\ rects = concat groups.
 Proof.
   intros p WF RT CONF HX HY HW HH UNI E. unfold send_tight_session in E. fold p in E. destruct lastrect.
